@@ -139,3 +139,18 @@ def register(reg):
         raises={"ValueError": "not old(has_key(self, key)) and isinstance(default, str) and not clean(default)"},
         raises_ensures={"ValueError": ["self._list == old(self._list)"]},
     )
+
+    # ---- setlist: every value goes through the header-value check (set for the first, add for the others)
+    reg.contract(
+        "werkzeug/datastructures/headers.py:Headers.setlist", prop="C05,C08", self_model=H,
+        params={"key": "str", "values": "List[str]"}, modifies=["self._list"],
+        requires=["I_h(self)"],
+        ensures=["I_h(self)",
+                 "implies(len(values) == 0, not has_key(self, key))",
+                 "implies(len(values) > 0, has_key(self, key))",
+                 # all values were acceptable
+                 "forall(0, len(values), lambda i: clean(values[i]))"],
+        raises={"ValueError": "exists(0, len(values), lambda i: not clean(values[i]))"},
+        loops={0: {"inv": ["I_h(self)", "has_key(self, key)", "forall(0, _i + 1, lambda j: clean(values[j]))"],
+                   "modifies": ["self._list"]}},
+    )
